@@ -425,3 +425,10 @@ Example c04_extended_example :
      | Fail _ _ => False
      end.
 Proof. vm_compute. repeat split. Qed.
+
+(* ... and a successful start of the extended model leaves the registry clean as well *)
+From IocVerif Require Import Proofs.FactoryXInv.
+Theorem c04_start_leaves_registry_clean_extended : forall s x o st,
+  run_xt repaired s x = (o, Ok st) ->
+  creating (reg st) = [] /\ forall m, alookup m (L2 (reg st)) = None /\ alookup m (L3 (reg st)) = None.
+Proof. intros s x o st H. exact (run_xt_caches_clean repaired s x o st eq_refl H). Qed.
